@@ -57,6 +57,7 @@ def _case(draw):
     std = st.sampled_from([0.0, 1.0, 0.5, 2.0, 1.3, 0.1, 3.0])
     return {"spec": spec, "rw": rw, "nv": nv,
             "std_u": [draw(std) for _ in range(n)], "std_w": [draw(std) for _ in spec["meas"]],
+            "std_u2": [draw(std) for _ in range(n)], "std_w2": [draw(std) for _ in spec["meas"]],
             "order": draw(st.integers(0, 4)), "scale": draw(st.sampled_from([2.0, 0.5, 3.0, 1.7]))}
 
 
@@ -87,15 +88,33 @@ def _classify_model(spec, rw, variant):
     return True
 
 
-def _stds(spec, case):
+def _stds(spec, case, variant=None):
+    """Assigned stds: per-variant lists for multi-variant models (variant=None), scalars for one variant."""
+    nv = case["nv"]
+
+    def pick(a, b):
+        if nv == 1:
+            return a
+        if variant is None:
+            return [a, b]
+        return a if variant == 0 else b
     out = {}
     for i, s in enumerate(lm.shock_names(spec)):
         if s:
-            out["std_" + s] = case["std_u"][i]
+            out["std_" + s] = pick(case["std_u"][i], case.get("std_u2", case["std_u"])[i])
     for k, w in enumerate(lm.mshock_names(spec)):
         if w:
-            out["std_" + w] = case["std_w"][k]
+            out["std_" + w] = pick(case["std_w"][k], case.get("std_w2", case["std_w"])[k])
     return out
+
+
+def _case_for_variant(case, v):
+    """The case as seen by variant v (its own std vectors)."""
+    if case["nv"] == 1 or v == 0:
+        return case
+    c = dict(case)
+    c["std_u"], c["std_w"] = case.get("std_u2", case["std_u"]), case.get("std_w2", case["std_w"])
+    return c
 
 
 def _single_variant_spec(spec, v):
@@ -199,8 +218,8 @@ def _check(case):
     any_nan = False
     for v in range(nv):
         sv = _single_variant_spec(spec, v)
-        m1 = lm.build_model(sv, stds=stds, zero_steady=zero)
-        ref, nonstat, tail = _reference(sv, case, m1, order)
+        m1 = lm.build_model(sv, stds=_stds(spec, case, variant=v), zero_steady=zero)
+        ref, nonstat, tail = _reference(sv, _case_for_variant(case, v), m1, order)
         if tail > 1e-9:
             return {"labels": ["responses_not_decayed"], "nontrivial": False}
         any_nan = any_nan or bool(nonstat.any())
